@@ -48,7 +48,7 @@ def _profile(cfg: dict, partial: str = "") -> gg.Profile:
 
 @st.composite
 def cases(draw):
-    r = draw(st.randoms(use_true_random=False))
+    r = core.rng(draw)
     cfg = envs.gen_cfg(r, loaders=("dict", "dict", "choice", "fs", "cdict", "cchoice", "cfs"))
     parts = {}
     for name in PARTIAL_NAMES:
